@@ -164,6 +164,8 @@ class SymX:
             d = self.decide(st.test, s) if self.decide else None
             if d is None:
                 d = _const_test(st.test, lin)
+            if d is None and s.depth == 0:
+                d = _truth_test(st.test, lin)       # a flag local bound to a literal (outside loops: no later iteration can re-bind it)
             rtext = {}
             def _rt(t):
                 try:
@@ -355,6 +357,28 @@ def _literal(txt):
         return float(txt)
     except ValueError:
         return _NOLIT
+
+
+def _truth_test(test, lin):
+    neg = False
+    while isinstance(test, ast.UnaryOp) and isinstance(test.op, ast.Not):
+        test, neg = test.operand, not neg
+    if not isinstance(test, ast.Name) or test.id not in lin.env:
+        return None
+    f = lin.env[test.id]
+    try:
+        txt = f.pretty()
+        c = f.const_value()
+    except Exception:
+        return None
+    if c is not None:
+        v = c != 0
+    else:
+        lit = _literal(txt)
+        if lit is _NOLIT:
+            return None
+        v = bool(lit)
+    return v != neg
 
 
 def _const_test(test, lin):
